@@ -1,5 +1,7 @@
 import RQ.Spec.Abs
 import RQ.Props.C20
+import RQ.Lemmas.Compose5
+import RQ.Props.C05
 /-!
 # C09 — pushes compose: any split into several invocations equals one push
 
@@ -9,6 +11,10 @@ cutting a series into consecutive pushes.  (The model of the driver is tied to t
 `RQ.Abs.C05_apply_refines`; that the tree between two invocations is the flushed overlay is part of the
 correspondence run, which executes every generated workspace as 1–4 consecutive invocations.)
 Also here: the series-level form of C20.
+
+Second half of the file (`namespace RQ.Compose`): the same property for the *executable* specification
+`Spec.pushSpec` on the tree itself — reject files, directories, `.pc/applied-patches`, exit status and the choice of
+the range (`plan`) included: `C09_oracle_composes`, `C09_exit_composes`, `C09_plan_composes`, `C09_pushSpec_composes`.
 -/
 namespace RQ.Abs
 open RQ RQ.Push RQ.Parse
@@ -319,3 +325,313 @@ theorem C20_series (fs : FS) (cfg : Cfg) (F' : Nat) (hF : cfg.fuzz ≤ F') :
 #print axioms C20_series
 
 end RQ.Abs
+
+/-! # C09 for the executable specification `Spec.pushSpec`
+
+`specRun cfg fs range` is what `pushSpec` does once `plan` has chosen `range` (`pushSpec_eq_specRun`).  All theorems
+are for real runs (`dryRun = false`) and assume `Clean cfg fs (r₁ ++ r₂)` (`RQ/Lemmas/Compose3.lean`, decidable): the
+patch files of the range can be read and parsed and are not below `.pc`, no file name in any of the patches has a path
+that is quilt's own (below `.pc`, the working directory itself, `series`, the patches directory or anything inside or
+above it), and no patch is called `.` or lives in a directory `applied-patches`.
+
+What is proved (lemmas in `RQ/Lemmas/Compose*.lean`):
+
+* (1) congruence `applyRangeTree_congr`, (2) split `applyRangeTree_append`, (3) `specRun_compose`;
+* `OutsidePc a b` = at every path outside `.pc` the two trees hold the same regular file (content, permission bits) or
+  both a directory or both nothing — inode numbers ignored;
+* the reject file of a name outside `.pc` is outside `.pc` (`safeKey_rej_not_pc`), so reject files are compared too.
+
+What is **not** claimed, and why:
+
+* *Refused pushes.*  If the single push is refused while applying `r₂` (unsafe name, a directory where a file is
+  expected, …) its tree is the original one — nothing applied — while the first of the two pushes stays applied.  This
+  is the all-or-nothing behaviour of the driver (nothing is saved on an error), not a defect; composition is stated
+  for pushes that are not refused, and `C09_oracle_composes` shows they are refused together.
+* *Output failures with backups.*  The two ways write different sets of backups below `.pc` (different window), so
+  "the last phase runs into an output failure" is compared only when no push writes backups (`C09_exit_composes`:
+  `backup = never`, or `backup = onfail` and everything applies); otherwise exit status and `.pc/applied-patches` are
+  compared under the hypothesis that neither way had an output failure.  Backups are deliberately not compared.
+* *`C09_disk_composes` (two consecutive runs of the driver model).*  Not proved.  `C05_disk_is_pushSpec` relates the
+  disk `w'.fs` of one driver run to `(pushSpec cfg w.fs).fs` only through `fileAt` at paths of names the abstract tree
+  can look up; the second driver run starts from `w'.fs`, and to transfer `C09_oracle_composes` with
+  `specRun_congr` one needs **`OutsidePc w'.fs (pushSpec cfg w.fs).fs`** — agreement at *every* path outside `.pc`,
+  directories included — together with `fileAt w'.fs appliedKey = fileAt (pushSpec cfg w.fs).fs appliedKey` (for
+  `plan`).  The missing lemma is the directory half of `C05_tree_on_disk`: `saveAll` + `cleanAll` (`createDirAll` for
+  new files, `cleanUp` climbing from the parents of removed files) create and remove exactly the directories that the
+  sequence of `storeTree`s (`createDirAll` / `pruneUp`) of `applyRangeTree` creates and removes, and
+  `saveRejFiles` = `putRejects`, `saveApplied` = the last step of `finishSpec` on `lookup` level.  (The correspondence
+  run executes every generated workspace as 1–4 consecutive invocations and compares the trees.) -/
+namespace RQ.Compose
+open RQ RQ.Push RQ.Spec RQ.Flush
+
+/-- `pushSpec` is `specRun` on the range `plan` chooses -/
+theorem C09_pushSpec_is_specRun (cfg : Cfg) (fs : FS) (range : List Series.Entry) (h : plan cfg fs = .apply range) :
+    pushSpec cfg fs = specRun cfg fs range := pushSpec_eq_specRun h
+
+/-- **C09 (oracle, range level).**  Push `r₁` — exit status 0: all of it applied, no output failure — then push `r₂`
+from the resulting tree; compare with pushing `r₁ ++ r₂` from the original tree (not refused).  Then the second push is
+not refused either, and the two ways leave
+
+* the same regular file (content and permission bits) at every path outside `.pc` — tracked files and reject files;
+* the same directories outside `.pc`;
+* and, unless one of them ran into an output failure below `.pc`, the same exit status and the same
+  `.pc/applied-patches` (the first push appends the names of `r₁`, the second those of the applied part of `r₂`, the
+  single push all of them). -/
+theorem C09_oracle_composes (cfg : Cfg) (hdry : cfg.dryRun = false) (fs : FS) (r1 r2 : List Series.Entry)
+    (hclean : Clean cfg fs (r1 ++ r2)) (h1 : (specRun cfg fs r1).exit = 0)
+    (hnr : ¬ Refused cfg fs (r1 ++ r2)) :
+    (specRun cfg fs r1).ioError = false ∧
+    ¬ Refused cfg (specRun cfg fs r1).fs r2 ∧
+    (∀ k, ¬ isPcKey k →
+      fileAt (specRun cfg (specRun cfg fs r1).fs r2).fs k = fileAt (specRun cfg fs (r1 ++ r2)).fs k ∧
+      (specRun cfg (specRun cfg fs r1).fs r2).fs.isDir k = (specRun cfg fs (r1 ++ r2)).fs.isDir k) ∧
+    ((specRun cfg (specRun cfg fs r1).fs r2).ioError = false → (specRun cfg fs (r1 ++ r2)).ioError = false →
+      (specRun cfg (specRun cfg fs r1).fs r2).exit = (specRun cfg fs (r1 ++ r2)).exit ∧
+      fileAt (specRun cfg (specRun cfg fs r1).fs r2).fs appliedKey =
+        fileAt (specRun cfg fs (r1 ++ r2)).fs appliedKey) := by
+  obtain ⟨href, hrest⟩ := specRun_compose cfg hdry fs r1 r2 hclean h1
+  obtain ⟨hout, hexit⟩ := hrest hnr
+  obtain ⟨_, _, _, _, _, _, hio1⟩ := specRun_exit0 hdry h1
+  exact ⟨hio1, fun h => hnr (href.mp h), fun k hk => ⟨hout.fileAt_eq hk, hout.isDir_eq hk⟩, hexit⟩
+
+/-- the two ways are refused together -/
+theorem C09_refused_together (cfg : Cfg) (hdry : cfg.dryRun = false) (fs : FS) (r1 r2 : List Series.Entry)
+    (hclean : Clean cfg fs (r1 ++ r2)) (h1 : (specRun cfg fs r1).exit = 0) :
+    Refused cfg (specRun cfg fs r1).fs r2 ↔ Refused cfg fs (r1 ++ r2) :=
+  (specRun_compose cfg hdry fs r1 r2 hclean h1).1
+
+/-- **C09 (exit status).**  If no push writes backups — `backup = never`, or the default `backup = onfail` and one of
+the two ways applies everything — the second push and the single push have the same exit status and the same
+output-failure flag.  In particular, with `backup ≠ always`: the two pushes succeed exactly when the single push
+succeeds (`C09_success_iff`). -/
+theorem C09_exit_composes (cfg : Cfg) (hdry : cfg.dryRun = false) (fs : FS) (r1 r2 : List Series.Entry)
+    (hclean : Clean cfg fs (r1 ++ r2)) (h1 : (specRun cfg fs r1).exit = 0) (hnr : ¬ Refused cfg fs (r1 ++ r2))
+    (hnb : cfg.backup = .never ∨ (cfg.backup = .onfail ∧
+      ((specRun cfg (specRun cfg fs r1).fs r2).exit = 0 ∨ (specRun cfg fs (r1 ++ r2)).exit = 0))) :
+    (specRun cfg (specRun cfg fs r1).fs r2).ioError = (specRun cfg fs (r1 ++ r2)).ioError ∧
+    (specRun cfg (specRun cfg fs r1).fs r2).exit = (specRun cfg fs (r1 ++ r2)).exit :=
+  specRun_compose_exit cfg hdry fs r1 r2 hclean h1 hnr hnb
+
+theorem C09_success_iff (cfg : Cfg) (hdry : cfg.dryRun = false) (fs : FS) (r1 r2 : List Series.Entry)
+    (hclean : Clean cfg fs (r1 ++ r2)) (h1 : (specRun cfg fs r1).exit = 0) (hnr : ¬ Refused cfg fs (r1 ++ r2))
+    (hb : cfg.backup ≠ .always) :
+    (specRun cfg (specRun cfg fs r1).fs r2).exit = 0 ↔ (specRun cfg fs (r1 ++ r2)).exit = 0 := by
+  have hcases : cfg.backup = .never ∨ cfg.backup = .onfail := by
+    cases h : cfg.backup with
+    | always => exact absurd h hb
+    | onfail => exact .inr rfl
+    | never => exact .inl rfl
+  constructor
+  · intro h
+    have := (C09_exit_composes cfg hdry fs r1 r2 hclean h1 hnr
+      (hcases.elim .inl (fun hc => .inr ⟨hc, .inl h⟩))).2
+    rw [← this]; exact h
+  · intro h
+    have := (C09_exit_composes cfg hdry fs r1 r2 hclean h1 hnr
+      (hcases.elim .inl (fun hc => .inr ⟨hc, .inr h⟩))).2
+    rw [this]; exact h
+
+/-- **C09 (a failing first push)**: if not all of `r₁` applies, pushing `r₁ ++ r₂` *is* pushing `r₁` -/
+theorem C09_failing_first_push (cfg : Cfg) (fs : FS) (r1 r2 : List Series.Entry)
+    (h : ∀ p, Spec.applyRangeTree cfg fs r1 (start fs) = .ok p → p.k ≠ r1.length) :
+    specRun cfg fs (r1 ++ r2) = specRun cfg fs r1 :=
+  specRun_append_of_not_all cfg fs r1 r2 h
+
+/-- **C09 (goal level): `plan` composes.**  The first push chose `r₁`, applied all of it and recorded it.  Whatever
+range `r₂` a second invocation (any goal) then chooses, a single invocation from the original tree with the goal
+"`|r₁| + |r₂|` patches" chooses `r₁ ++ r₂`.  Needs: the old `.pc/applied-patches` is absent, or parses and ends with a
+newline (`AppliedOK`).  That the names of `r₁` survive being recorded in `.pc/applied-patches` and read back is no
+longer a hypothesis: every name `readSeries` returns is `Series.PlainName` (non-empty, no whitespace, valid UTF-8 —
+`Series.readSeries_names_plain`), and a plain name reads back as itself with `readApplied`
+(`Series.plainName_iff`).  Before the repair of `hash-named-patch` this failed for a name like `#x` (a series line
+` #x` with leading whitespace): recorded as `#x`, read back as a comment (`C09_hash_name_roundtrip`). -/
+theorem C09_plan_composes (cfg cfg2 : Cfg) (fs : FS) (r1 r2 : List Series.Entry) (hdry : cfg.dryRun = false)
+    (hclean : Clean cfg fs r1) (happ : AppliedOK fs)
+    (hp1 : plan cfg fs = .apply r1) (hx : (pushSpec cfg fs).exit = 0)
+    (hp2 : plan cfg2 (pushSpec cfg fs).fs = .apply r2) :
+    plan { cfg with goal := .count (r1.length + r2.length) } fs = .apply (r1 ++ r2) := by
+  rw [pushSpec_eq_specRun hp1] at hx hp2
+  exact plan_compose hdry hclean happ hp1 hx hp2
+
+/-- **C09 (`pushSpec`, end to end).**  `pushSpec cfg` applies the range `r₁` it chose completely (exit status 0); a
+second `pushSpec` with the goal `g2` chooses `r₂`.  Then a single `pushSpec` with the goal "`|r₁| + |r₂|` patches"
+chooses `r₁ ++ r₂`, and — unless it is refused — leaves the same files and directories outside `.pc` as the two
+invocations, and (no output failure) the same exit status and `.pc/applied-patches`. -/
+theorem C09_pushSpec_composes (cfg : Cfg) (g2 : Goal) (fs : FS) (r1 r2 : List Series.Entry)
+    (hdry : cfg.dryRun = false) (hclean : Clean cfg fs (r1 ++ r2))
+    (happ : AppliedOK fs) (hp1 : plan cfg fs = .apply r1) (hx : (pushSpec cfg fs).exit = 0)
+    (hp2 : plan { cfg with goal := g2 } (pushSpec cfg fs).fs = .apply r2) :
+    plan { cfg with goal := .count (r1.length + r2.length) } fs = .apply (r1 ++ r2) ∧
+    (¬ Refused cfg fs (r1 ++ r2) →
+      (∀ k, ¬ isPcKey k →
+        fileAt (pushSpec { cfg with goal := g2 } (pushSpec cfg fs).fs).fs k =
+          fileAt (pushSpec { cfg with goal := .count (r1.length + r2.length) } fs).fs k ∧
+        (pushSpec { cfg with goal := g2 } (pushSpec cfg fs).fs).fs.isDir k =
+          (pushSpec { cfg with goal := .count (r1.length + r2.length) } fs).fs.isDir k) ∧
+      ((pushSpec { cfg with goal := g2 } (pushSpec cfg fs).fs).ioError = false →
+        (pushSpec { cfg with goal := .count (r1.length + r2.length) } fs).ioError = false →
+        (pushSpec { cfg with goal := g2 } (pushSpec cfg fs).fs).exit =
+          (pushSpec { cfg with goal := .count (r1.length + r2.length) } fs).exit ∧
+        fileAt (pushSpec { cfg with goal := g2 } (pushSpec cfg fs).fs).fs appliedKey =
+          fileAt (pushSpec { cfg with goal := .count (r1.length + r2.length) } fs).fs appliedKey)) := by
+  have hall := C09_plan_composes cfg { cfg with goal := g2 } fs r1 r2 hdry hclean.left happ hp1 hx hp2
+  refine ⟨hall, ?_⟩
+  intro hnr
+  rw [pushSpec_eq_specRun hall, pushSpec_eq_specRun hp2, specRun_goal cfg g2, specRun_goal cfg (.count _)]
+  rw [pushSpec_eq_specRun hp1] at hx ⊢
+  obtain ⟨_, _, h3, h4⟩ := C09_oracle_composes cfg hdry fs r1 r2 hclean hx hnr
+  exact ⟨h3, h4⟩
+
+/-! ## The repaired defect `hash-named-patch`: a patch whose name starts with `#`
+
+A series line ` #x` (leading whitespace) names the patch `#x`.  `save_applied_patches` records it as the line `#x`;
+`.pc/applied-patches` used to be read with the comment rule of the series file, so the name was lost and the second of
+two pushes failed where a single push succeeds.  Now it is read with `readApplied` (no comment rule). -/
+
+/-- the name `#x`, recorded in `.pc/applied-patches`, reads back as itself -/
+theorem C09_hash_name_roundtrip :
+    Series.readApplied ([35, 120] ++ [10]) =
+      .ok [{ name := [35, 120], strip := Extracted.defaultPatchStrip, reverse := false }] :=
+  Series.plainName_readApplied (by decide)
+
+/-- a name starting with `#` is plain -/
+example : Series.PlainName [35, 120] := by decide
+
+/-- the series file does yield that name (indented line) -/
+example : Series.readSeries [32, 35, 120, 10] =
+    .ok [{ name := [35, 120], strip := Extracted.defaultPatchStrip, reverse := false }] := by
+  unfold Series.readSeries; rfl
+
+/-- the old behaviour (and still that of the series file): the recorded line is a comment -/
+example : Series.readSeries ([35, 120] ++ [10]) = .ok [] := by
+  unfold Series.readSeries; rfl
+
+/-! ## Towards `C09_disk_composes`: what follows once the bridge lemma is there
+
+*Conditional on the missing lemma* (hypothesis `hbridge`: the disk `w1.fs` the first run of the driver model leaves
+agrees with the oracle's tree after the first push at every path outside `.pc`, directories included — see the header
+of this section), the disk after the *second* run of the driver model (`applyPatches` on `r₂` from `w1`) holds, under
+every readable non-reject non-`.pc` name, the file the oracle's *single* push of `r₁ ++ r₂` leaves there, with the same
+number of applied patches and the same reject files.  Chain: `C05_disk_is_oracle` (second driver run = oracle run from
+`w1.fs`), `applyRangeTree_congr` (oracle from `w1.fs` = oracle from the oracle's tree), `specRun_compose` (= second
+half of the single push), `finishSpec_fileAt`. -/
+theorem patchOf_outside {a b : FS} {cfg : Cfg} {e : Series.Entry} (h : OutsidePc a b)
+    (hout : ∀ pk, patchKey cfg e.name = some pk → ¬ isPcKey pk) : Agree.patchOf a cfg e = Agree.patchOf b cfg e := by
+  unfold Agree.patchOf
+  cases hk : patchKey cfg e.name with
+  | none => rfl
+  | some pk => simp only; rw [h.readFile_eq (hout pk hk)]
+
+theorem C09_disk_composes_of_bridge (cfg : Cfg) (hdry : cfg.dryRun = false) (fs : FS) (r1 r2 : List Series.Entry)
+    (hclean : Clean cfg fs (r1 ++ r2)) (h1 : (specRun cfg fs r1).exit = 0) (hnr : ¬ Refused cfg fs (r1 ++ r2))
+    (w1 w2 : World) (k2 : Nat) (hf : w1.faultAt = none)
+    (hbridge : OutsidePc (specRun cfg fs r1).fs w1.fs)
+    (hpf : Agree.PrefixFree w1.fs cfg r2) (hterm : ∀ t' ∈ Agree.reached w1.fs cfg r2 [], Agree.TreeTerminated t')
+    (h2 : applyPatches w1 cfg r2 = .ok (w2, k2)) :
+    ∃ t rejs pA, Abs.applyRange w1.fs cfg r2 0 [] = .ok (t, k2, rejs) ∧
+      Spec.applyRangeTree cfg fs (r1 ++ r2) (start fs) = .ok pA ∧ pA.k = k2 + r1.length ∧ pA.rejs = rejs.reverse ∧
+      ∀ name key a, Comp.cur ∉ components name → safeKey name = some key → ¬ isRejKey rejs key → ¬ isPcKey key →
+        Abs.look t w1.fs name = .ok a → fileAt w2.fs key = fileAt (specRun cfg fs (r1 ++ r2)).fs key := by
+  obtain ⟨p1, pA, pB, hp1, hk1, ho1, hio1, hA, hB, ⟨hfsAB, hkAB, hrejAB, _, _⟩, hclean2⟩ :=
+    compose_setup cfg hdry fs r1 r2 hclean h1 hnr
+  obtain ⟨pW, t, rejs, hspec, hW, hkW, _, hrW, hfileW⟩ :=
+    Abs.C05_disk_is_oracle w1 w2 cfg r2 k2 hf hdry hpf hterm h2
+  have hcong := applyRangeTree_congr cfg (specRun cfg fs r1).fs w1.fs 0 [] r2
+    (fun e he => patchOf_outside hbridge (hclean2 e he).keyOut) hclean2.namesOut
+    (start (specRun cfg fs r1).fs) (start w1.fs) ⟨hbridge, rfl, rfl, rfl, rfl⟩
+  obtain ⟨pW', hW', hfsBW, hkBW, hrejBW, _, _⟩ := hcong.ok_left hB
+  have : pW' = pW := by
+    have e : Spec.applyRangeTree cfg w1.fs r2 (start w1.fs) = .ok pW := hW
+    rw [e] at hW'; cases hW'; rfl
+  subst this
+  have hkB : pB.k = pW'.k := by simpa using hkBW
+  refine ⟨t, rejs, pA, hspec, hA, by rw [hkAB, hkB, hkW], by rw [hrejAB, hrejBW, hrW], ?_⟩
+  intro name key a hc hk hnr' hnp hl
+  rw [hfileW name key a hc hk hnr' hnp hl, ← hfsBW.fileAt_eq hnp, ← hfsAB.fileAt_eq hnp]
+  have hsr : specRun cfg fs (r1 ++ r2) = Spec.finishSpec cfg fs (r1 ++ r2) pA := by
+    unfold specRun; rw [hA]
+  rw [hsr, Agree.finishSpec_fileAt cfg fs (r1 ++ r2) pA key hdry ?_ hnp]
+  rw [hrejAB, hrejBW, hrW]
+  exact fun ⟨r, hm, e⟩ => hnr' ⟨r, List.mem_reverse.mp hm, e⟩
+
+/-! ## A concrete instance: two patches on one file, pushed 1 + 1 and 2 at once
+
+Working directory: `a` = `x\n`, `series` = `p1\np2\n`, `patches/p1` turns `x` into `y`, `patches/p2` turns `y` into
+`z`.  The hypotheses of the theorems hold (`Clean` is decidable), and both ways end with `a` = `z\n`,
+`.pc/applied-patches` = `p1\np2\n`, exit status 0. -/
+namespace Example
+
+/-- `--- a/a\n+++ b/a\n@@ -1 +1 @@\n-x\n+y\n` (applied with the default `-p1`) -/
+def patch1 : Bytes :=
+  [45, 45, 45, 32, 97, 47, 97, 10, 43, 43, 43, 32, 98, 47, 97, 10, 64, 64, 32, 45, 49, 32, 43, 49, 32, 64, 64, 10, 45, 120, 10, 43, 121, 10]
+/-- `--- a/a\n+++ b/a\n@@ -1 +1 @@\n-y\n+z\n` -/
+def patch2 : Bytes :=
+  [45, 45, 45, 32, 97, 47, 97, 10, 43, 43, 43, 32, 98, 47, 97, 10, 64, 64, 32, 45, 49, 32, 43, 49, 32, 64, 64, 10, 45, 121, 10, 43, 122, 10]
+
+def fs0 : FS :=
+  { nodes := [([[97]], .file [120, 10] 0o644 1),
+      ([[115, 101, 114, 105, 101, 115]], .file [112, 49, 10, 112, 50, 10] 0o644 2),
+      ([[112, 97, 116, 99, 104, 101, 115]], .dir),
+      ([[112, 97, 116, 99, 104, 101, 115], [112, 49]], .file patch1 0o644 3),
+      ([[112, 97, 116, 99, 104, 101, 115], [112, 50]], .file patch2 0o644 4)], nextIno := 5 }
+
+def e1 : Series.Entry := { name := [112, 49], strip := Extracted.defaultPatchStrip, reverse := false }
+def e2 : Series.Entry := { name := [112, 50], strip := Extracted.defaultPatchStrip, reverse := false }
+/-- `push` (one patch), `push -a`, `push 2` -/
+def cfg1 : Cfg := { goal := .count 1 }
+def cfgA : Cfg := { cfg1 with goal := .all }
+def cfg2 : Cfg := { cfg1 with goal := .count 2 }
+
+theorem clean0 : Clean cfg1 fs0 ([e1] ++ [e2]) := by decide
+theorem applied0 : AppliedOK fs0 := .inl (by decide)
+
+/-- one patch, then the rest; against both at once -/
+theorem pushes :
+    (let o1 := pushSpec cfg1 fs0
+     let o2 := pushSpec cfgA o1.fs
+     let oAll := pushSpec cfg2 fs0
+     o1.exit == 0 && o2.exit == 0 && oAll.exit == 0 && !o2.ioError && !oAll.ioError &&
+     fileAt o1.fs [[97]] == some ([121, 10], 0o644) &&
+     fileAt o1.fs appliedKey == some ([112, 49, 10], 0o644) &&
+     fileAt o2.fs [[97]] == some ([122, 10], 0o644) &&
+     fileAt oAll.fs [[97]] == some ([122, 10], 0o644) &&
+     fileAt o2.fs appliedKey == some ([112, 49, 10, 112, 50, 10], 0o644) &&
+     fileAt oAll.fs appliedKey == some ([112, 49, 10, 112, 50, 10], 0o644)) = true := by decide
+
+def isApply (p : Plan) (r : List Series.Entry) : Bool :=
+  match p with
+  | .apply x => x == r
+  | _ => false
+
+theorem isApply_eq {p : Plan} {r : List Series.Entry} (h : isApply p r = true) : p = .apply r := by
+  cases p with
+  | apply x => simp only [isApply, beq_iff_eq] at h; rw [h]
+  | refuse => cases h
+  | nothingToDo => cases h
+
+theorem plan1 : isApply (plan cfg1 fs0) [e1] = true := by decide
+theorem plan2 : isApply (plan cfgA (pushSpec cfg1 fs0).fs) [e2] = true := by decide
+theorem planAll : isApply (plan cfg2 fs0) [e1, e2] = true := by decide
+
+/-- the hypotheses of `C09_pushSpec_composes` hold here, so its conclusions do (the first one is `planAll`) -/
+example : plan { cfg1 with goal := .count 2 } fs0 = .apply ([e1] ++ [e2]) :=
+  (C09_pushSpec_composes cfg1 .all fs0 [e1] [e2] rfl clean0 applied0 (isApply_eq plan1) (by decide)
+    (isApply_eq plan2)).1
+
+end Example
+
+#print axioms C09_oracle_composes
+#print axioms C09_refused_together
+#print axioms C09_exit_composes
+#print axioms C09_success_iff
+#print axioms C09_failing_first_push
+#print axioms C09_plan_composes
+#print axioms C09_pushSpec_composes
+#print axioms applyRangeTree_congr
+#print axioms applyRangeTree_append
+#print axioms specRun_congr
+#print axioms Example.pushes
+#print axioms C09_hash_name_roundtrip
+#print axioms C09_disk_composes_of_bridge
+
+end RQ.Compose
